@@ -1189,19 +1189,25 @@ class PendingImport(PendingNode[Import]):
     def get_result(self) -> list[expr]:
         result = []
         for _alias in self.node.names:
-            if _alias.asname is None:
-                asname = _alias.name
-            else:
+            import_func: expr = Attribute(
+                value=Name(id="importlib", ctx=Load()),
+                attr="import_module",
+            )
+            if _alias.asname is not None:
                 asname = _alias.asname
+            elif "." in _alias.name:
+                # `import a.b` imports a.b but binds the top-level package `a`,
+                # which is what `__import__('a.b')` returns
+                asname = _alias.name.split(".")[0]
+                import_func = Name(id="__import__", ctx=Load())
+            else:
+                asname = _alias.name
 
             result.append(
                 self.nsp.get_assign(
                     asname,
                     Call(
-                        func=Attribute(
-                            value=Name(id="importlib", ctx=Load()),
-                            attr="import_module",
-                        ),
+                        func=import_func,
                         args=[Constant(value=_alias.name)],
                         keywords=[],
                     ),
